@@ -199,19 +199,46 @@ def run(chk):
             return t[1].rsplit("::", 1)[-1]
         return None
     users = {"AT": [], "ED": []}
+
+    def flag_of(o):
+        if o and o["k"] == "const" and "flags::Flags::" in (o.get("uneval") or o.get("s") or ""):
+            return (o.get("uneval") or o.get("s")).rsplit("::", 1)[-1]
+        return None
+
     for b in p.all_bodies:
         if b.crate != "passkey_types" or "flags.rs" in b.file:
             continue
-        for bb, t in b.calls():
-            for a in t["args"]:
-                if a["k"] == "const" and "flags::Flags::" in (a.get("uneval") or a.get("s") or ""):
-                    nm = (a.get("uneval") or a.get("s")).rsplit("::", 1)[-1]
-                    if nm in users and (names.call_is(t, "AuthenticatorData::set_flags") or names.call_is(t, "BitOr::bitor") or names.call_is(t, "BitOrAssign::bitor_assign") or names.call_is(t, "Flags::insert") or names.call_is(t, "Flags::union")):
+        for bb, blk in enumerate(b.blocks):
+            if blk["cleanup"]:
+                continue
+            for st in blk["stmts"]:
+                if st["k"] == "assign":
+                    rv = st["rv"]
+                    for o in [rv.get("op"), rv.get("a"), rv.get("b")] + list(rv.get("ops", [])):
+                        nm = flag_of(o) if isinstance(o, dict) else None
+                        if nm in users:
+                            users[nm].append((b, bb))
+            t = blk["term"]
+            if t and t["k"] == "call" and not names.call_is(t, "Flags::contains", "Flags::intersects"):
+                for a in t["args"]:
+                    nm = flag_of(a)
+                    if nm in users:
                         users[nm].append((b, bb))
-    at_fns = sorted(api_name(b) for b, bb in users["AT"])
-    ed_fns = sorted(api_name(b) for b, bb in users["ED"])
-    chk.ob("R3 flags", "R3|AT|setters", at_fns == ["AuthenticatorData::set_attested_credential_data", "AuthenticatorData::to_vec"], AD, "AT is OR-ed in: %s" % at_fns)
-    chk.ob("R3 flags", "R3|ED|setters", ed_fns == ["AuthenticatorData::set_assertion_extensions", "AuthenticatorData::set_make_credential_extensions"], AD, "ED is OR-ed in: %s" % ed_fns)
+    # public anchors (methods of AuthenticatorData reachable from outside) whose call closure ORs the flag:
+    # private helpers may be extracted or inlined without changing the verdict
+    pub_methods = [b for (adt, trait, name), bs in p.methods.items() if adt == AD and trait is None for b in bs if b.j.get("is_pub")]
+    def anchors(flag):
+        ub = {b.path for b, bb in users[flag]}
+        out = []
+        for m in pub_methods:
+            cl = p.call_closure([m])
+            if any(x.path in ub for x in cl.values()):
+                # set_flags itself only ORs what it is given
+                out.append(api_name(m))
+        return sorted(out)
+    at_fns, ed_fns = anchors("AT"), anchors("ED")
+    chk.ob("R3 flags", "R3|AT|setters", at_fns == ["AuthenticatorData::set_attested_credential_data", "AuthenticatorData::to_vec"], AD, "public methods through which AT is OR-ed: %s" % at_fns)
+    chk.ob("R3 flags", "R3|ED|setters", ed_fns == ["AuthenticatorData::set_assertion_extensions", "AuthenticatorData::set_make_credential_extensions"], AD, "public methods through which ED is OR-ed: %s" % ed_fns)
     # AT in set_attested_credential_data together with storing the data; in to_vec only on the Some edge
     sa = p.method(AD, "set_attested_credential_data")
     if sa is not None:
@@ -229,8 +256,8 @@ def run(chk):
         if not chk.require("R3 flags", "R3|ED|%s" % nm, b, AD, "%s not found" % nm):
             continue
         chk.touched(b)
-        o = S.local_outcomes(b)
-        with_ed = [x for x in o if has(x.value, lambda y: is_call(y, "AuthenticatorData::set_flags"))]
+        o = S.outcomes(b)
+        with_ed = [x for x in o if has(x.value, lambda y: (isinstance(y, tuple) and len(y) == 4 and y[0] == "upd" and names.is_(y[1], "BitOrAssign::bitor_assign")) or is_call(y, "AuthenticatorData::set_flags"))]
         without = [x for x in o if x.variant[:1] == ("Ok",) and x not in with_ed]
         ok = len(with_ed) >= 1 and len(without) >= 1
         for x in with_ed:
